@@ -181,6 +181,111 @@ func runC19(c *runCtx) {
 	c19PartialIndex(c, gb, tmplUser)
 	c19Commands(c, gb)
 	c19Races(c, gb, tmplUser, bugId, facts.LockExclusive)
+	c19LockForms(c, gb, tmplUser, bugId)
+}
+
+// c19LockForms: what the lock file can hold and who can be asked about it.  A dead holder's pid of
+// any length the kernel can hand out is recovered; the pid of a live process that is not ours to
+// signal (init; a process of another user) is a live holder: the open is refused, names it and
+// leaves the file alone.
+func c19LockForms(c *runCtx, gb, tmpl string, id entity.Id) {
+	pidMax := 4194304
+	if b, err := os.ReadFile("/proc/sys/kernel/pid_max"); err == nil {
+		if v, err := strconv.Atoi(strings.TrimSpace(string(b))); err == nil {
+			pidMax = v
+		}
+	}
+	deadPid := func(want int) int {
+		for p := want; p > 1; p-- {
+			if _, err := os.Stat(fmt.Sprintf("/proc/%d", p)); err != nil {
+				return p
+			}
+		}
+		return want
+	}
+	// pids that no process has: above this machine's pid_max when that is below the kernel's limit
+	var dead []int
+	for _, w := range []int{9, 99, 999, 9999, 99999, 999999, 4194303} {
+		if w >= pidMax || w < 1000 {
+			dead = append(dead, deadPid(w))
+		}
+	}
+	if d := deadPid(pidMax - 1); true {
+		dead = append(dead, d)
+	}
+	for _, pid := range dead {
+		dir := copyDir(tmpl)
+		os.WriteFile(lockPath(dir), []byte(strconv.Itoa(pid)), 0o644)
+		out, err := runGB(gb, dir, "bug")
+		c.count(fmt.Sprintf("lock-form/dead-digits=%d", len(strconv.Itoa(pid))))
+		if err != nil {
+			c.violation(-1, "C19/dead-holder-blocks", fmt.Sprintf("the lock left by a dead process with pid %d is not recovered: %s", pid, trunc(out, 200)), nil)
+		} else if readLock(dir) != "" {
+			c.violation(-1, "C19/lock-left-by-command", fmt.Sprintf("after recovering the lock of dead pid %d the command left a lock file: %q", pid, readLock(dir)), nil)
+		}
+		os.RemoveAll(dir)
+	}
+	// a live process that is not a git-bug of ours: pid 1
+	{
+		dir := copyDir(tmpl)
+		os.WriteFile(lockPath(dir), []byte("1"), 0o644)
+		out, err := runGB(gb, dir, "bug")
+		c.count("lock-form/live-pid-1")
+		if err == nil || !strings.Contains(out, "already locked by the process pid 1") || readLock(dir) != "1" {
+			c.violation(-1, "C19/live-lock-removed", fmt.Sprintf("the lock of live process 1 did not stop an open (err=%v, lock now %q): %s", err, readLock(dir), trunc(out, 200)), nil)
+		}
+		os.RemoveAll(dir)
+	}
+	// a repository shared by two users: the holder belongs to somebody else, the opener may not signal it
+	if os.Geteuid() == 0 {
+		os.Chmod(scratchRoot, 0o755)
+		dir := copyDir(tmpl)
+		exec.Command("chmod", "-R", "a+rwX", dir).Run()
+		p0 := c19Start(gb, dir, id)
+		if r := p0.waitOpen(dir); r != "acquired" {
+			c.violation(-1, "C19/harness", "other-user scenario: the holder did not open: "+trunc(p0.stderr.String(), 200), nil)
+		} else {
+			// (the holder, idle now, replaced some files with private ones while opening: a shared
+			// repository has group access set up, which is not what is examined here)
+			var out []byte
+			var err error
+			for try := 0; try < 6; try++ {
+				time.Sleep(150 * time.Millisecond)
+				exec.Command("chmod", "-R", "a+rwX", dir).Run()
+				cmd := exec.Command(gb, "bug")
+				cmd.Dir = dir
+				cmd.Env = gbEnv(dir)
+				cmd.SysProcAttr = &syscall.SysProcAttr{Credential: &syscall.Credential{Uid: 65534, Gid: 65534}}
+				done := make(chan struct{})
+				go func() { out, err = cmd.CombinedOutput(); close(done) }()
+				select {
+				case <-done:
+				case <-time.After(20 * time.Second):
+					if cmd.Process != nil {
+						cmd.Process.Kill()
+					}
+					<-done
+					err = fmt.Errorf("did not finish in 20 s")
+				}
+				// the holder may still have been writing private files when the access was opened up
+				if !strings.Contains(string(out), "permission denied") {
+					break
+				}
+			}
+			c.count("lock-form/holder-of-another-user")
+			if err == nil || !strings.Contains(string(out), "already locked by the process pid "+p0.pid()) || readLock(dir) != p0.pid() {
+				c.violation(-1, "C19/live-lock-removed", fmt.Sprintf("a live holder (pid %s, another user's process) did not stop an open by an unprivileged user (err=%v, lock now %q): %s", p0.pid(), err, readLock(dir), trunc(string(out), 300)), nil)
+			}
+		}
+		p0.stdin.Close()
+		if !p0.wait(10 * time.Second) {
+			p0.cmd.Process.Kill()
+			p0.wait(5 * time.Second)
+		}
+		os.RemoveAll(dir)
+	} else {
+		c.count("lock-form/holder-of-another-user=skipped-not-root")
+	}
 }
 
 // c19Schedules: orders of open / close / kill / terminate of up to 3 live processes.
